@@ -246,3 +246,17 @@ pub(crate) fn owner_of(ex: &crate::rt::Execution, idx: usize) -> Option<usize> {
 pub(crate) fn unlocked_mutex_state() -> State {
     State { seq_cst: false, lock: None, last_access: None, synchronize: Synchronize::new() }
 }
+
+/// Mutex state with a symbolic DPOR last-access record at path position `pid` (or none).
+pub(crate) fn mutex_state_with_access(pid: usize) -> State {
+    State {
+        seq_cst: false,
+        lock: None,
+        last_access: if kani::any() { Some(crate::rt::access::verif_kani::any_access(pid)) } else { None },
+        synchronize: Synchronize::new(),
+    }
+}
+pub(crate) fn last_access_of(ex: &crate::rt::Execution, idx: usize) -> Option<(usize, VersionVec)> {
+    let r: object::Ref<State> = crate::rt::object::verif_kani::mk_ref(idx);
+    r.get(crate::rt::execution::verif_kani::objects(ex)).last_access.as_ref().map(|a| crate::rt::access::verif_kani::access_parts(a))
+}
